@@ -255,76 +255,34 @@ Hypothesis step_paired : forall ff cc d m z cc' cap,
 Hypothesis full_flush_fresh : forall cc m z cc' d, comp true cc m = (z, cc') -> Rsync cc' d.
 
 
-(* what the flags of safe_overrides_from mean *)
-Definition ctx_inv (st : wstate) (cx : Cx) (used poisoned : bool) : Prop :=
-  (used = false -> ws_shared st = None)
-  /\ (w_notakeover wc = true -> forall cc, ws_shared st = Some cc -> forall d, Rsync cc d)
-  /\ (poisoned = false -> forall cc, ws_shared st = Some cc -> Rsync cc cx).
+(* the writer's shared compressor, if it exists, is paired with the reader's decompressor (and with every decompressor
+   state when each message ends with a full flush) *)
+Definition ctx_inv (st : wstate) (cx : Cx) : Prop :=
+  (w_notakeover wc = true -> forall cc, ws_shared st = Some cc -> forall d, Rsync cc d)
+  /\ (forall cc, ws_shared st = Some cc -> Rsync cc cx).
 
-Definition flags_after (used poisoned : bool) (o : sop) : bool * bool :=
-  match o with
-  | Send opcode _ override _ =>
-    if is_compressed_send wc opcode override then
-      if negb (override =? 0) then (used, poisoned || (used && negb (w_notakeover wc)))
-      else (true, poisoned)
-    else (used, poisoned)
-  | Close _ _ _ => (used, poisoned)
-  end.
-
-Definition op_safe (used poisoned : bool) (o : sop) : bool :=
-  match o with
-  | Send opcode _ override _ =>
-    if is_compressed_send wc opcode override then
-      if negb (override =? 0) then negb (w_compress wc =? 0) else negb poisoned
-    else true
-  | Close _ _ _ => true
-  end.
-
-Lemma safe_overrides_cons used poisoned o rest :
-  safe_overrides_from wc used poisoned (o :: rest) =
-  op_safe used poisoned o && safe_overrides_from wc (fst (flags_after used poisoned o)) (snd (flags_after used poisoned o)) rest.
-Proof.
-  destruct o as [opcode p override rb|code reason rb]; cbn [safe_overrides_from op_safe flags_after]; [|reflexivity].
-  destruct (is_compressed_send wc opcode override); [|reflexivity].
-  destruct (negb (override =? 0)); reflexivity.
-Qed.
-
-Lemma ctx_inv_weaken st cx u p u' p' :
-  ctx_inv st cx u p -> (u' = false -> u = false) -> (p' = false -> p = false) -> ctx_inv st cx u' p'.
-Proof. intros (A & B & C) HU HP. repeat split; auto. Qed.
-
-Lemma ctx_inv_closing st cx u p : ctx_inv st cx u p -> ctx_inv (set_closing Cc st) cx u p.
-Proof. intro H. exact H. Qed.
-
-Lemma flags_plain used poisoned o : op_plain o = true -> flags_after used poisoned o = (used, poisoned).
-Proof.
-  destruct o as [opcode body override rbits|code reason rbits]; cbn [op_plain flags_after]; [|reflexivity].
-  unfold is_compressed_send. intros ->. reflexivity.
-Qed.
-
-Lemma op_roundtrip (st : wstate) (s : rstate) (used poisoned : bool) (o : sop) w wlen p st' rest :
-  rd_inv s -> ctx_inv st (m_cx (s_m s)) used poisoned ->
-  op_wf c o = true -> op_safe used poisoned o = true ->
+Lemma op_roundtrip (st : wstate) (s : rstate) (o : sop) w wlen p st' rest :
+  rd_inv s -> ctx_inv st (m_cx (s_m s)) ->
+  op_wf c o = true -> op_safe wc o = true ->
   do_op st o = SSent w wlen p st' -> fits c o wlen = true ->
   exists m s', expect o = Some m
     /\ Ws.iter Cx decomp c s (w ++ rest) = PDone [m] s' rest
     /\ rd_inv s'
-    /\ ctx_inv st' (m_cx (s_m s')) (fst (flags_after used poisoned o)) (snd (flags_after used poisoned o)).
+    /\ ctx_inv st' (m_cx (s_m s')).
 Proof.
   intros RI CI WF SAFE DO FIT.
   destruct (op_plain o) eqn:OP.
   { destruct (op_roundtrip_plain st s o w wlen p st' rest RI WF OP DO FIT) as (m & s' & EX & IT & RI' & CX & SH).
     exists m, s'. split; [exact EX|split; [exact IT|split; [exact RI'|]]].
-    rewrite (flags_plain used poisoned o OP). cbn [fst snd]. rewrite CX.
-    destruct CI as (C1 & C2 & C3). unfold ctx_inv. rewrite SH. repeat split; assumption. }
+    rewrite CX. destruct CI as (C2 & C3). unfold ctx_inv. rewrite SH. split; assumption. }
   destruct RI as (P & T & FR & PA & MO & FF).
   unfold fits in FIT. apply andb_true_iff in FIT as [MZ FIT]. apply N.leb_le in MZ.
   destruct o as [opcode body override rbits|code reason rbits]; [|discriminate OP].
   cbn [op_plain] in OP. rename OP into PL.
   cbn [WsCodec.do_op] in DO. unfold send_frame in DO.
   destruct (ws_closing st && closing_refuses opcode); [discriminate|].
-  cbn [op_wf] in WF. cbn [op_safe] in SAFE. cbn [flags_after]. unfold is_compressed_send in *.
-  rewrite PL in *. cbn [negb] in SAFE.
+  cbn [op_wf] in WF. cbn [op_safe] in SAFE. unfold is_compressed_send in *.
+  rewrite PL in *. cbn [negb andb] in SAFE.
   assert (DOP : opcode = OP_TEXT \/ opcode = OP_BINARY).
   { apply orb_true_iff in WF as [WF|WF].
     - apply andb_true_iff in WF as [WF _]. apply andb_true_iff in WF as [DOP _].
@@ -358,11 +316,11 @@ Proof.
     rewrite X in FIT. apply andb_true_iff in FIT as [F1 F2]. apply negb_true_iff in F1, F2. split; assumption. }
   destruct FITS as [FW ITB].
   (* the compressor the writer used is paired with the reader's decompressor *)
-  destruct CI as (CI1 & CI2 & CI3).
+  destruct CI as (CI2 & CI3).
   assert (PAIR : Rsync cc (m_cx (s_m s))).
-  { unfold get_compressor in GC. destruct (override =? 0) eqn:OV; cbn [negb] in GC, SAFE.
+  { unfold get_compressor in GC. destruct (override =? 0) eqn:OV; cbn [negb] in GC.
     - destruct (ws_shared st) as [cs|] eqn:SH; injection GC as <- <-.
-      + apply CI3; [|reflexivity]. apply negb_true_iff in SAFE. exact SAFE.
+      + apply CI3. reflexivity.
       + apply fresh_paired.
     - injection GC as <- <-. apply fresh_paired. }
   destruct (step_paired _ _ _ _ _ _ (inflate_cap (max_msg_size c)) PAIR CO) as (d' & DEC & PAIR').
@@ -381,70 +339,52 @@ Proof.
   - cbn [expect]. destruct DOP as [-> | ->]; reflexivity.
   - eapply rd_inv_intro; try eassumption; reflexivity.
   - rewrite M'. cbn [m_cx]. unfold get_compressor in GC.
-    destruct (override =? 0) eqn:OV; cbn [negb fst snd] in *.
+    destruct (override =? 0) eqn:OV; cbn [negb] in *.
     + (* shared context *)
-      apply negb_true_iff in SAFE. subst poisoned.
       assert (SH : shared = true) by (destruct (ws_shared st); injection GC as _ <-; reflexivity).
-      subst shared. repeat split.
-      * discriminate.
+      subst shared. split.
       * intros NT cc2 E d. cbn [ws_shared] in E. injection E as <-. rewrite NT in CO. eapply full_flush_fresh; exact CO.
-      * intros _ cc2 E. cbn [ws_shared] in E. injection E as <-. exact PAIR'.
-    + (* per-message override: the shared compressor did not move, the peer's decompressor did *)
-      injection GC as _ <-. repeat split.
-      * exact CI1.
-      * exact CI2.
-      * intros PZ cc2 E. apply orb_false_iff in PZ as [PZ1 PZ2]. apply andb_false_iff in PZ2 as [U|NT].
-        -- rewrite (CI1 U) in E. discriminate E.
-        -- apply negb_false_iff in NT. exact (CI2 NT cc2 E d').
-Qed.
-
-Lemma flags_monotone used poisoned o :
-  (fst (flags_after used poisoned o) = false -> used = false)
-  /\ (snd (flags_after used poisoned o) = false -> poisoned = false).
-Proof.
-  destruct o as [opcode body override rbits|code reason rbits]; cbn [flags_after]; [|split; intro H; exact H].
-  destruct (is_compressed_send wc opcode override); [|split; intro H; exact H].
-  destruct (negb (override =? 0)); cbn [fst snd]; split; intro H; try exact H; try discriminate H.
-  apply orb_false_iff in H as [H _]. exact H.
+      * intros cc2 E. cbn [ws_shared] in E. injection E as <-. exact PAIR'.
+    + (* per-message override: the shared compressor is dropped *)
+      injection GC as _ <-. split; intros; cbn [ws_shared] in *; discriminate.
 Qed.
 
 (* ---- the whole run --------------------------------------------------------------------------------- *)
-Lemma run_roundtrip : forall ops (st : wstate) (s : rstate) used poisoned acc,
-  rd_inv s -> ctx_inv st (m_cx (s_m s)) used poisoned ->
+Lemma run_roundtrip : forall ops (st : wstate) (s : rstate) acc,
+  rd_inv s -> ctx_inv st (m_cx (s_m s)) ->
   forallb (op_wf c) ops = true ->
-  safe_overrides_from wc used poisoned ops = true ->
+  safe_overrides wc ops = true ->
   all_fit c (wo_sent (wrun st ops)) = true ->
   exists msgs s', expect_all (wo_sent (wrun st ops)) = Some msgs
     /\ runs s (wo_wire (wrun st ops)) acc (acc ++ msgs, Live s') /\ rd_inv s'.
 Proof.
-  induction ops as [|o ops IH]; intros st s used poisoned acc RI CI WF SO AF.
+  induction ops as [|o ops IH]; intros st s acc RI CI WF SO AF.
   - exists [], s. cbn [WsCodec.wrun wo_sent wo_wire expect_all]. split; [reflexivity|split; [|exact RI]].
     rewrite app_nil_r. destruct RI as (P & T & _).
     assert (E : Ws.iter Cx decomp c s [] = PNeed s).
     { unfold Ws.iter, Ws.ph_header. rewrite P. cbn [Ws.bind]. f_equal. apply set_tail_nil. exact T. }
     apply RNeed. exact E.
   - cbn [forallb] in WF. apply andb_true_iff in WF as [WF1 WF].
-    rewrite safe_overrides_cons in SO. apply andb_true_iff in SO as [SO1 SO].
+    unfold safe_overrides in SO. cbn [forallb] in SO. apply andb_true_iff in SO as [SO1 SO].
     cbn [WsCodec.wrun] in *. destruct (do_op st o) as [st'|w n p st'|] eqn:DO.
     + (* refused: nothing on the wire *)
       cbn [wo_sent wo_wire] in *.
-      apply (IH st' s (fst (flags_after used poisoned o)) (snd (flags_after used poisoned o)) acc RI); try assumption.
-      destruct CI as (C1 & C2 & C3). pose proof (do_op_refused_shared _ _ _ DO) as SH.
-      destruct (flags_monotone used poisoned o) as [FU FP].
-      repeat split; rewrite SH; auto.
+      apply (IH st' s acc RI); try assumption.
+      destruct CI as (C2 & C3). pose proof (do_op_refused_shared _ _ _ DO) as SH.
+      split; rewrite SH; assumption.
     + (* sent *)
       cbn [wo_sent wo_wire] in *. cbn [all_fit forallb fst snd] in AF. apply andb_true_iff in AF as [F1 AF].
-      destruct (op_roundtrip st s used poisoned o w n p st' (wo_wire (wrun st' ops)) RI CI WF1 SO1 DO F1)
+      destruct (op_roundtrip st s o w n p st' (wo_wire (wrun st' ops)) RI CI WF1 SO1 DO F1)
         as (m & s1 & EX & IT & RI1 & CI1).
-      destruct (IH st' s1 _ _ (acc ++ [m]) RI1 CI1 WF SO AF) as (msgs & s2 & EA & RU & RI2).
+      destruct (IH st' s1 (acc ++ [m]) RI1 CI1 WF SO AF) as (msgs & s2 & EA & RU & RI2).
       exists (m :: msgs), s2. split; [|split; [|exact RI2]].
       * cbn [expect_all]. rewrite EX, EA. reflexivity.
       * eapply RDone; [exact IT|]. rewrite <- app_assoc in RU. exact RU.
     + exfalso. exact (do_op_no_layout _ _ DO).
 Qed.
 
-Lemma ctx_inv_init cx0 : ctx_inv (wstate0 Cc) cx0 false false.
-Proof. repeat split; intros; discriminate. Qed.
+Lemma ctx_inv_init cx0 : ctx_inv (wstate0 Cc) cx0.
+Proof. split; intros; discriminate. Qed.
 
 (* MAIN: every accepted operation is delivered, in order, with its payload, and the reader is still alive — for
    every segmentation of the wire *)
@@ -458,7 +398,7 @@ Theorem roundtrip ops segs cx0 :
     /\ rd_status (snd (feed_all Cx decomp c (Live (init_state Cx cx0)) segs)) = SPending.
 Proof.
   intros WF SO AF CS.
-  destruct (run_roundtrip ops (wstate0 Cc) (init_state Cx cx0) false false [] (rd_inv_init cx0) (ctx_inv_init cx0) WF SO AF)
+  destruct (run_roundtrip ops (wstate0 Cc) (init_state Cx cx0) [] (rd_inv_init cx0) (ctx_inv_init cx0) WF SO AF)
     as (msgs & s' & EA & RU & _).
   exists msgs. split; [exact EA|].
   destruct (seg_independent Cx decomp c cx0 segs) as (E1 & _ & E3). cbv zeta in E1, E3. rewrite E1, E3, CS.
@@ -466,7 +406,6 @@ Proof.
   change (Ws.set_tail Cx (init_state Cx cx0) []) with (init_state Cx cx0) in FR. cbn [s_tail init_state app] in FR.
   rewrite (runs_det _ _ _ _ _ _ _ FR _ RU). split; reflexivity.
 Qed.
-
 
 End Run.
 
